@@ -1,14 +1,18 @@
 ---------------------------- MODULE MC_ManifestList ----------------------------
 (* Whole manifests: 0-3 entries drawn from good and bad names, hash lengths in  *)
-(* classes, and the three orders of thisUpdate / nextUpdate.                    *)
+(* classes, and thisUpdate / nextUpdate out of five instants in chronological   *)
+(* order that the encoder writes in both time forms: 0 = 1950 (UTCTime "50..",   *)
+(* the two-digit pivot), 1 = 2024 (GeneralizedTime), 2 = one second later        *)
+(* (UTCTime), 3 = end of 2049 (UTCTime "49.."), 4 = 2050 (GeneralizedTime).      *)
 EXTENDS Manifest, Json
 Names == { <<"a", ".", "a", "Z", "a">>, <<"Z", "-", "_", "1", ".", "Z", "Z", "Z">>, <<".", "a", "a", "a">>, <<"a", "/", "a", ".", "a", "a", "a">>,
            <<"a", ".", "a", "a">>, <<"a", ".", "a", "1", "a">>, <<".", ".", ".", "a", "a", "a">> }
 HashLens == {0, 31, 32, 33}
 VARIABLES entries, thisUpd, nextUpd
 vars == <<entries, thisUpd, nextUpd>>
-Init == entries = <<>> /\ thisUpd \in 0..2 /\ nextUpd \in 0..2
-AddEntry == Len(entries) < 3 /\ \E n \in Names, h \in HashLens : entries' = Append(entries, [name |-> n, hlen |-> h])
+Init == entries = <<>> /\ thisUpd \in 0..4 /\ nextUpd \in 0..4
+\* the full 5 x 5 grid of instants for manifests of up to one entry, the middle 3 x 3 for longer ones
+AddEntry == Len(entries) < 3 /\ (Len(entries) >= 1 => (thisUpd \in 1..3 /\ nextUpd \in 1..3)) /\ \E n \in Names, h \in HashLens : entries' = Append(entries, [name |-> n, hlen |-> h])
             /\ UNCHANGED <<thisUpd, nextUpd>>
 Next == AddEntry
 Spec == Init /\ [][Next]_vars
